@@ -229,8 +229,35 @@ def r12_4(ctx):
               "state path set, previous state sourced, EXIT trap installed, then the user's expression as the last statement",
               "template statement order is path=%s source=%s trap=%s expression=%s of %d" % (i_path, i_src, i_trap, i_expr, len(top)))
     if i_trap is not None:
-        ctx.check(re.match(r"^\[ \{persist_state\} -eq 1 \] && trap ", top[i_trap]) is not None, "trap-conditional", where,
-                  "the trap is installed exactly when {persist_state} is 1")
+        # `[ {persist_state} -eq 1 ] && trap ..` or the same test as the condition of an enclosing `if`
+        inline = re.match(r"^\[\[? \{persist_state\} (-eq|==|=) 1 \]\]? && trap ", top[i_trap]) is not None
+        gs = []
+        enclosing = None
+        for i_, l in enumerate(top):
+            if re.match(r"^if\b", l):
+                gs.append(l)
+            if i_ == i_trap:
+                enclosing = list(gs)
+            if re.match(r"^fi\b", l) and gs:
+                gs.pop()
+        in_if = bool(enclosing) and any(re.match(r"^if \[\[? \{persist_state\} (-eq|==|=) 1 \]\]?\s*;?\s*(then)?$", g) for g in enclosing) and \
+            re.match(r"^trap\s+__scrut_persist_state\s+EXIT\b", top[i_trap]) is not None
+        ctx.check(inline or in_if, "trap-conditional", where, "the trap is installed exactly when {persist_state} is 1",
+                  "the EXIT trap statement `%s` is not guarded by `{persist_state} -eq 1`" % top[i_trap])
+    # loading the previous state must not depend on {persist_state}: a detached test case (persist_state=0) leaves nothing behind, but it
+    # still has to *see* what its predecessors left
+    guards, src_guards = [], None
+    for l in top:
+        if re.match(r"^(if|while|until)\b", l):
+            guards.append(l)
+        if re.search(r"\bsource\s+\"\$__SCRUT_TEMP_STATE_PATH/state\"", l) or re.search(r"(^|\s)\.\s+\"\$__SCRUT_TEMP_STATE_PATH/state\"", l):
+            src_guards = list(guards) + [l]
+        if re.match(r"^(fi|done)\b", l) and guards:
+            guards.pop()
+    ctx.check(src_guards is not None and not any("{persist_state}" in g for g in src_guards), "source-unconditional", where,
+              "the persisted state is sourced whether or not this test case persists its own state (detached test cases see their predecessors' state)",
+              "the `source state` statement is guarded by {persist_state} (%s): a detached test case starts from a blank shell instead of the state "
+              "the previous test cases left behind" % (src_guards,))
     m0 = re.match(r"^(?:local\s+)?([A-Za-z_][A-Za-z_0-9]*)=\$\?$", body[0]) if body else None
     ctx.check(m0 is not None and re.match(r"^exit\s+\"?\$\{?%s\}?\"?$" % re.escape(m0.group(1)), body[-1]) is not None, "trap-preserves-exit-code", where,
               "the trap function first saves $? and finally exits with it (the command's exit code is preserved)",
